@@ -89,6 +89,7 @@ func runC07(p *Prog, r *Report) {
 	c.literalRank(prods)
 	c7EntryConsumesAll(c.p, c.r)
 	c7CharacterNarrowing(c.p, c.r)
+	c7LiteralAccumulation(c.p, c.r)
 	c7BalancedCounters(c.p, c.r)
 	c7CommentTerminator(p, r)
 	c7ReservedUnconditional(p, r)
